@@ -1,6 +1,7 @@
 import PytezosModel.Michelson.MacroSem
 /-! C19 helper lemmas about the reference side only: the rewriting-rule meanings of `Spec` (`build`, `unbuild`, `cxr`,
 `setCxr`, `mapCxr`, `dixp`, `duxp`) agree with their value-level readings. -/
+set_option linter.unusedSimpArgs false
 namespace C19.Values
 open Spec Sem
 
